@@ -71,7 +71,7 @@ def in_separable_ball(mat: np.ndarray) -> bool:
 
     # Case: Vector of eigenvalues.
     if len(mat_dims) == 1 or min(mat_dims) == 1:
-        mat = np.diag(mat)
+        mat = np.diag(np.asarray(mat).flatten())
 
     # If the matrix has trace equal to 0 or less, it cannot be in the separable ball.
     if np.trace(mat) < max_dim * np.finfo(float).eps:
